@@ -10,8 +10,8 @@
    scheduling predicates do not depend on it; decision outcomes DO (witness below), which is
    why replay relies on the hasher being deterministic - an assumption about hashbrown/FxHash
    that is not modelled. *)
-From Coq Require Import List Arith Bool NArith Permutation.
-From HV Require Import Sim.Model Sim.POracle.
+From Coq Require Import List Arith Bool NArith Permutation String.
+From HV Require Import Sim.Model Sim.Run Sim.Log Sim.POracle Sim.PReplay.
 Import ListNotations.
 Open Scope N_scope.
 
@@ -39,3 +39,30 @@ Example C38_outcome_depends_on_oracle :
 Proof.
   split; [|split; reflexivity]. constructor. apply perm_swap.
 Qed.
+
+(* The modelled run of an instance -- readiness, decisions consumed, released items, remaining
+   queues, panics and the decision-log TEXT -- is the Gallina function [run_log]'s reference
+   ([model_tick], [tick_log]) of (hook states, map iteration orders, decision values); that it is
+   a function is definitional.  props/C38.py compares EVERY component of the implementation's
+   log with it on every explored instance, for the scripted driver and for bolero's real
+   byte-slice driver (whose returned values are recorded and replayed on the model).
+   With content: a run reads its script left to right and ignores what follows the decisions
+   it consumed, so a recorded decision string replays identically when more entropy follows. *)
+Theorem C38_run_ignores_unused_decisions : forall hs ds hs2 outs rest e,
+  run_hooks hs ds = Ok (hs2, outs, rest) -> run_hooks hs (ds ++ e) = Ok (hs2, outs, rest ++ e).
+Proof. exact run_hooks_frame. Qed.
+Print Assumptions C38_run_ignores_unused_decisions.
+
+Theorem C38_model_run_is_a_function : forall hs rs v1 v2,
+  run_log hs rs = v1 -> run_log hs rs = v2 -> v1 = v2.
+Proof. intros hs rs v1 v2 H1 H2. congruence. Qed.
+Print Assumptions C38_model_run_is_a_function.
+
+Example C38_log_text :
+  fst (tick_log [HStreamT [10; 20] None; HSingle [7; 8] None (Some 5)]
+                [HStreamT [20] None; HSingle [] None (Some 8)]
+                [([(0, 10)], true); ([(0, 8)], true)] [[]; []])
+  = ("--> loc" ++ nl ++ " |line" ++ nl ++ " |  ^ releasing items: [10]" ++ nl
+     ++ "--> loc" ++ nl ++ " |line" ++ nl
+     ++ " |  ^ releasing snapshot: 8 (skipping earlier states: [7])" ++ nl)%string.
+Proof. reflexivity. Qed.
